@@ -69,9 +69,10 @@ CLAIMED["C13"] = dict(
          "channels have pairwise distinct ids, closing never raises KeyError; a received OPEN yields exactly one "
          "datachannel event for an open channel with the opener's id and parameters, a repeated OPEN is ignored; "
          "close() on an open channel resets exactly its stream and the peer's response closes it and frees the id "
-         "for immediate reuse; close() while the association is still being set up queues the stream reset, "
+         "for immediate reuse; for every input list no message is queued for a closed channel (closing drops what the channel "
+         "still had queued, so nothing of a previous owner of a stream id is sent after its reset); close() while the association is still being set up queues the stream reset, "
          "which is requested as soon as the association is established; negotiated channels register under their id, open exactly once when the association "
-         "is (or becomes) established, and a second channel with the id is refused (17 theorems). PARTIAL: the two-endpoint close protocol is "
+         "is (or becomes) established, and a second channel with the id is refused (19 theorems). PARTIAL: the two-endpoint close protocol is "
          "observed only; it is refuted by known findings K4 (RE-CONFIG never retransmitted), K9 (reset request "
          "processed before the DATA it follows), K10 (id reused before both directions are reset).",
     design_ref="5 / C13",
